@@ -16,6 +16,7 @@ import (
 	"golang.org/x/tools/go/ssa/ssautil"
 
 	"gosym/sx"
+	"gosym/wq"
 )
 
 type Job = sx.Job
@@ -99,60 +100,62 @@ func loadProgram(pkgDirs []string) (*loaded, error) {
 	return l, nil
 }
 
-// runJobs explores the jobs on up to nw pool copies of the interpreter in parallel.
+// runJobs explores each job (harness) with up to nw interpreter copies that share one work queue of
+// decision prefixes (dynamic load balancing). Returns one result per copy and job.
 func runJobs(l *loaded, jobs []Job, nw int, progress func(Result)) []Result {
 	if nw > len(pool) {
 		nw = len(pool)
 	}
-	if nw > len(jobs) {
-		nw = len(jobs)
-	}
 	if nw < 1 {
 		nw = 1
 	}
-	results := make([]Result, len(jobs))
-	next := make(chan int, len(jobs))
-	for i := range jobs {
-		next <- i
-	}
-	close(next)
-	var wg sync.WaitGroup
-	var mu sync.Mutex
-	for w := 0; w < nw; w++ {
-		wg.Add(1)
-		go func(w int) {
-			defer wg.Done()
-			for i := range next {
-				job := jobs[i]
-				res := Result{Job: job}
-				sp := l.pkgs[job.Pkg]
-				var fn *ssa.Function
-				if sp != nil {
-					fn = sp.Func(job.Fn)
-				}
-				switch {
-				case sp == nil:
-					res.Error = "package not loaded: " + job.Pkg
-				case fn == nil:
-					res.Error = "harness function not found: " + job.Fn
-				default:
-					jb, _ := json.Marshal(job)
-					out := pool[w](l.prog, fn, jb)
-					if err := json.Unmarshal(out, &res); err != nil {
-						res = Result{Job: job, Error: "result: " + err.Error()}
-					}
-				}
-				res.LoadS, res.GoVersion = l.loadS, l.gover
-				results[i] = res
-				if progress != nil {
-					mu.Lock()
-					progress(res)
-					mu.Unlock()
-				}
+	var results []Result
+	for _, job := range jobs {
+		sp := l.pkgs[job.Pkg]
+		var fn *ssa.Function
+		if sp != nil {
+			fn = sp.Func(job.Fn)
+		}
+		if sp == nil || fn == nil {
+			r := Result{Job: job, Error: "harness function not found: " + job.Pkg + "." + job.Fn}
+			results = append(results, r)
+			if progress != nil {
+				progress(r)
 			}
-		}(w)
+			continue
+		}
+		w := nw
+		if job.Pin != nil {
+			w = 1
+		}
+		q := wq.New(w)
+		part := make([]Result, w)
+		var wg sync.WaitGroup
+		for k := 0; k < w; k++ {
+			wg.Add(1)
+			go func(k int) {
+				defer wg.Done()
+				jk := job
+				jk.ShardI, jk.ShardN = k, 1
+				jb, _ := json.Marshal(jk)
+				out := pool[k](l.prog, fn, jb, q)
+				var res Result
+				if err := json.Unmarshal(out, &res); err != nil {
+					res = Result{Job: jk, Error: "result: " + err.Error()}
+				}
+				res.Job.ShardI, res.Job.ShardN = k, w
+				res.LoadS, res.GoVersion = l.loadS, l.gover
+				part[k] = res
+			}(k)
+		}
+		wg.Wait()
+		for _, r := range part {
+			results = append(results, r)
+			if progress != nil {
+				progress(r)
+			}
+		}
 	}
-	wg.Wait()
 	return results
 }
 
@@ -199,7 +202,7 @@ func cmdRun(args []string) int {
 			found := false
 			for _, h := range hs {
 				if h.Fn == name || (strings.HasSuffix(name, "*") && strings.HasPrefix(h.Fn, strings.TrimSuffix(name, "*"))) {
-					j := Job{Pkg: h.Pkg, Fn: h.Fn, MaxPaths: h.MaxPaths, QTimeout: h.QTimeout, ShardN: 1}
+					j := Job{Pkg: h.Pkg, Fn: h.Fn, MaxPaths: h.MaxPaths, QTimeout: h.QTimeout, ShardDepth: h.ShardDepth, ShardN: 1}
 					if *maxPaths > 0 {
 						j.MaxPaths = *maxPaths
 					}
